@@ -3,6 +3,7 @@
 //!   verif-replay witness <kind> k=hex ...       -> re-runs one input; exit 1 if the real code still disagrees
 //!   verif-replay bounded <PROPERTY>             -> exhaustive bounded cross-checks (thorough tier), prints counts
 mod oracle;
+mod more;
 use oracle::*;
 use pkgsrc::distinfo::{Distinfo, Entry, Checksum, DistinfoError};
 use pkgsrc::digest::Digest;
@@ -932,6 +933,21 @@ fn run_witness(args: &[String]) -> i32 {
             Ok(p) => real_plist_views(&p),
             Err(_) => "parse-error".into(),
         },
+        "pkgpath" => more::real_pkgpath(&g("path")),
+        "depend" => more::real_depend(&g("depend")),
+        "meta_table" => more::real_meta_table(),
+        "meta_is_valid" => more::real_is_valid(g("mask").parse().unwrap_or(0)).to_string(),
+        "pkgdb_tree" => {
+            let root = std::env::temp_dir().join(format!("verif-replay-w-{}", std::process::id()));
+            let _ = std::fs::remove_dir_all(&root);
+            std::fs::create_dir_all(&root).unwrap();
+            more::build_tree(&root, &g("spec"));
+            let a = more::real_tree(&root);
+            let _ = std::fs::remove_dir_all(&root);
+            a
+        }
+        "scanindex" => format!("{:?}", more::scan_real(&unhexb(&g("hextext")), g("failat").parse().ok())),
+        "no_panic" => more::replay_no_panic(&g("entry"), &unhexb(&g("hexinput"))),
         "order_law" => {
             // re-evaluate the law on the real code
             let mut r = Rng::new(1);
@@ -993,6 +1009,10 @@ fn main() {
                 "C08" => search_c08(&mut r, iters),
                 "C09" => search_c09(&mut r, iters),
                 "C15" => search_c15(&mut r, iters),
+                "C16" => more::search_c16(&mut r, iters),
+                "C17" => more::search_c17(&mut r, iters),
+                "C19" => more::search_c19(&mut r, iters),
+                "C20" => more::search_c20(&mut r, iters),
                 _ => {
                     println!("no searcher for {}", pid);
                     true
